@@ -61,6 +61,17 @@ func (n *UnaryExpressionNode) String() string {
 
 	buff.WriteString(n.Op.FetchValue())
 
+	// keep the operator from merging with the operand
+	// into another token eg. `- -a`, `< ::Foo`, `< -1`
+	switch n.Op.Type {
+	case token.PLUS, token.MINUS, token.BANG, token.TILDE:
+		if _, ok := n.Right.(*UnaryExpressionNode); ok {
+			buff.WriteRune(' ')
+		}
+	default:
+		buff.WriteRune(' ')
+	}
+
 	parens := ExpressionPrecedence(n) > ExpressionPrecedence(n.Right)
 	if parens {
 		buff.WriteRune('(')
